@@ -19,7 +19,13 @@ Instr(e, m) == { k \in 1 .. Len(e.instrs) : e.instrs[k].m = m }
 MachineOK(e) ==
     LET gl == e.gdt_limit
         il == e.idt_limit
-        tr == LoadTr(e.gdt, gl, e.tr)
+        \* ltr marks the descriptor it loads busy (type 9 -> 11, bit 41 of the low word): the image read back after the
+        \* load shows the mark, the load itself saw the descriptor without it, and it fetched exactly these two words
+        ti == e.tr \div 8 + 1
+        busy == << 0, 0, 512, 0 >>
+        pre == IF ti + 1 <= Len(e.gdt) THEN [e.gdt EXCEPT ![ti] = AndW(@, NotW(busy))] ELSE e.gdt
+        tr == LoadTr(pre, gl, e.tr)
+        ltrs == SelectSeq(e.instrs, LAMBDA i : i.m = "ltr")
         want == [ k \in 1 .. Len(e.gates) |-> e.gates[k] ]       \* [v, handler, ist (0 none, 1..7), dpl, trap]
         cfgd == { want[k].v : k \in 1 .. Len(want) }
         rsp0 == << 65520, 65535, 32767, 0 >>                      \* interrupted stack pointer 0x7fff_ffff_fff0
@@ -29,6 +35,8 @@ MachineOK(e) ==
        /\ e.gdt_base = e.gdt_addr /\ gl = 8 * e.gdt_len - 1 /\ Len(e.gdt) = e.gdt_len
        /\ e.idt_base = e.idt_addr /\ il = 4095 /\ Len(e.idt) = 512
        \* the task register points at the TSS that was described
+       /\ ti + 1 <= Len(e.gdt) /\ Bit(e.gdt[ti], 41) = 1
+       /\ Len(ltrs) = 1 /\ ltrs[1].b = pre[ti] /\ ltrs[1].c = pre[ti + 1]
        /\ tr.k = "ok" /\ tr.base = e.tss_addr /\ tr.limit = 103 /\ Len(e.tss) = 104
        /\ TssIoMapBase(e.tss) = 104
        \* the code selector the gates carry is the kernel code segment that was appended
